@@ -215,12 +215,15 @@ type c01Sample struct {
 func init() {
 	register(&Prop{
 		ID:   "C01",
-		Rule: "each run draws a route list (depth<=3: spec matchers with read patterns, proxy_protocol/tls preludes, throttle, tee, subroute, consume-k, echo/recorder), a position-coded client stream (0..4x matching limit, more in thorough), a client write schedule and a network fault subset (segmentation, short reads, latency, window, abort). Non-trivial: the server needed >=2 socket reads before a consuming handler ran, or a fault fired; distinct: distinct event-log hashes.",
+		Rule: "nine runs in ten: each run draws a route list (depth<=3: spec matchers with read patterns, proxy_protocol/tls preludes, throttle, tee, subroute, consume-k, echo/recorder), a position-coded client stream (0..4x matching limit, more in thorough), a client write schedule and a network fault subset (segmentation, short reads, latency, window, abort). One run in ten is the datagram variant: UDP datagrams prefetched for a matcher that needs n bytes (spanning datagrams) and read back by consume/recorder handlers with arbitrary buffers (partial datagram reads); the stream is the concatenation of the datagrams. Non-trivial: the server needed >=2 socket reads before a consuming handler ran, or a fault fired; distinct: distinct event-log hashes.",
 		Run:  runC01,
 	})
 }
 
 func runC01(t *testing.T, e *worlds.Env, tier string) (bool, any) {
+	if e.T.Prob(1, 10, "udp") {
+		return runC01UDP(t, e, tier)
+	}
 	var w *worlds.TCPWorld
 	var cl *worlds.Client
 	var model *worlds.ConnModel
